@@ -826,7 +826,7 @@ func runC13(rc *runCtx) *RunResult {
 				// a reference that did not go through the same mutation sequence may store the
 				// polygon's loops in another order, and may have a tighter bound (the bound after
 				// Invert is allowed to be loose): compare what is a function of the region only
-				if q.Kind == QBounds {
+				if q.Kind == QBounds || q.Kind == QMember {
 					return false, true, subj, ref
 				}
 				subj, ref = orderIndependent(subj), orderIndependent(ref)
@@ -935,6 +935,9 @@ func probeHistory(rc *runCtx, steps []HStep, descs []*ObjDesc) {
 	lastEQ := map[int]int{} // reuse id -> last query kind
 	for i := range steps {
 		h := &steps[i]
+		if h.Kind == HQuery {
+			rc.inc("q_"+qNames[h.Q.Kind], 1)
+		}
 		switch h.Kind {
 		case HBuild:
 			built[h.Obj] = true
